@@ -43,6 +43,35 @@ history:   spec/PkgRelationMemo.tla models a memo layer between caller and refer
            trip, and str(r) is compared before / after formatting an edited deep copy of r (which
            makes its own round trip): all under the same verdicts; in (b) TLC validates the later
            results against the memo-free Parse (steps 5 and 6 of TracePkgRelation).
+public entry points (notes/API_SURFACE.md) -> where they are exercised:
+  PkgRelation.parse_relations(text)            classmethod, positional     replay, trace, history, probe
+  PkgRelation.parse_relations(raw=text)        keyword                     replay + trace (rotating: API_VARIANTS)
+  PkgRelation().parse_relations(text)          through an instance         replay + trace (rotating)
+  PkgRelation.str(rels) / str(rels=rels) /     staticmethod: positional,   replay + trace (rotating), every str of
+    PkgRelation().str(rels)                    keyword, through instance   the history and the relations leg
+  input of str: list of lists of dicts         key order (120), list/tuple/plain-tuple containers, structures
+                                               returned by parse_relations (also re-keyed / edited), by
+                                               the relations property
+  Packages(...).relations[f]                   10 fields   } VERDICT for a paragraph not modified since
+  Sources(...).relations[f]                    7 fields    } construction (mixin_leg): == r, no warning, str of it
+  BuildInfo(...).relations[f]                  1 field     } == the string, absent fields [], two live objects
+     paragraph built from dict / str / bytes / list of lines / Cls.iter_paragraphs(use_apt_pkg=False) /
+     copy.deepcopy; key spelled lower / as in Policy / upper / title case (the dict lower-cases on lookup)
+                                               replay: every 8th case, rotating over 18 fields x 6 forms x 4
+                                               spellings; trace: every recorded execution (TLC: pm = Parse(t) = r)
+  relations after d[f] = new / del d[f] /      UNSPECIFIED (lazily computed snapshot of the paragraph as
+     a field added after construction          constructed; lead's decision): executed, outcomes counted in the
+                                               evidence, the two shapes seen on the pinned tree recorded as drift
+  Dsc, Changes, Deb822, Release ...            no relations property (only the three classes above mix it in)
+  iter_paragraphs(use_apt_pkg=True)            apt_pkg is not installed in this image (falls back with a warning)
+  deprecated aliases                           none exist for PkgRelation / the mixin (function_deprecated_by is
+                                               only used for Deb822.isSingleLine / isMultiLine / mergeFields)
+  pickle of a parse result                     not part of the statement; raises PicklingError today when the
+                                               result has an arch list / formula (namedtuple classes nested in
+                                               PkgRelation): recorded under unspecified_outcomes
+  characters: package names, versions, architecture names and qualifiers are ASCII by Policy, profile names
+  lower-case ASCII (D3): no Unicode stress inside the domain; non-ASCII / NBSP / BOM payloads are executed in
+  the unspecified zone only.  Blank stress (tabs, newlines, runs) is the probe leg.
 concretization dimensions the abstract structure does not have (PkgRelation.tla: Format is a
            function of the abstract structure only; negative control FormatInKeyOrder):
            key insertion order of the input dicts (all 120 orders of the five keys over a run, a
@@ -59,8 +88,7 @@ verdict observables: parse_relations(str(r)) == r (TLC: Inverse), no warning (No
            string == first string (Stable), for every call of a history (MemoTransparent); any
            exception.
 diagnostic (drift, never an alarm): the produced string differs from the token string predicted by
-           Format (blank details of the formatter), namedtuple types of the parsed entries, the
-           same strings read through Packages(...).relations / Sources(...).relations, and "probe"
+           Format (blank details of the formatter), namedtuple types of the parsed entries, and "probe"
            traces: parse_relations on formatter output whose blanks were changed at random (and
            sometimes a token dropped) must be predicted by Parse -- this measures that the automaton
            has the blank tolerance of the real regexes, so that a formatter which writes other
@@ -511,23 +539,139 @@ def emitted(w):
     return out
 
 
-def run_real(r_py):
-    """str -> parse_relations -> str on the real class.  Exceptions and warnings are observations."""
+API_VARIANTS = 6
+
+
+def call_str(rels, api=0):
+    """PkgRelation.str through every public calling convention (a staticmethod)"""
     from debian.deb822 import PkgRelation
+    k = api % 3
+    if k == 0:
+        return PkgRelation.str(rels)
+    if k == 1:
+        return PkgRelation.str(rels=rels)
+    return PkgRelation().str(rels)
+
+
+def call_parse(text, api=0):
+    """PkgRelation.parse_relations through every public calling convention (a classmethod)"""
+    from debian.deb822 import PkgRelation
+    k = (api // 3 + api) % 3
+    if k == 0:
+        return PkgRelation.parse_relations(text)
+    if k == 1:
+        return PkgRelation.parse_relations(raw=text)
+    return PkgRelation().parse_relations(text)
+
+
+def run_real(r_py, api=0):
+    """str -> parse_relations -> str on the real class (api: which calling conventions).
+    Exceptions and warnings are observations."""
     out = {"s": None, "p": None, "s2": None, "warn": [], "exc": ""}
     stage = "PkgRelation.str"
     with warnings.catch_warnings(record=True) as w:
         warnings.simplefilter("always")
         try:
-            out["s"] = PkgRelation.str(r_py)
+            out["s"] = call_str(r_py, api)
             stage = "parse_relations"
-            out["p"] = PkgRelation.parse_relations(out["s"])
+            out["p"] = call_parse(out["s"], api)
             stage = "PkgRelation.str of the parse"
-            out["s2"] = PkgRelation.str(out["p"])
+            out["s2"] = call_str(out["p"], api + 1)
         except Exception as e:       # noqa: BLE001 -- observation
             out["exc"] = "%s in %s: %s" % (type(e).__name__, stage, e)
     out["warn"] = ["%s: %s" % (x.category.__name__, x.message) for x in emitted(w)]
     return out
+
+
+# ---- the relation fields of paragraph objects (_PkgRelationMixin.relations)
+MIXIN_FIELDS = (
+    [("Packages", f) for f in ("Depends", "Pre-Depends", "Recommends", "Suggests", "Breaks", "Conflicts", "Provides",
+                               "Replaces", "Enhances", "Built-Using")]
+    + [("Sources", f) for f in ("Build-Depends", "Build-Depends-Indep", "Build-Depends-Arch", "Build-Conflicts",
+                                "Build-Conflicts-Indep", "Build-Conflicts-Arch", "Binary")]
+    + [("BuildInfo", "Installed-Build-Depends")])
+MIXIN_FORMS = ("dict", "str", "bytes", "lines", "iter_paragraphs", "deepcopy")
+
+
+def make_paragraph(cls_name, field, value, form):
+    import debian.deb822 as m
+    cls = getattr(m, cls_name)
+    text = "Package: zz\n" + ("%s: %s\n" % (field, value) if value is not None else "")
+    if form == "dict":
+        return cls(dict([("Package", "zz")] + ([(field, value)] if value is not None else [])))
+    if form == "str":
+        return cls(text)
+    if form == "bytes":
+        return cls(text.encode("utf-8"))
+    if form == "lines":
+        return cls(text.splitlines(True))
+    if form == "iter_paragraphs":
+        return next(iter(cls.iter_paragraphs(text.splitlines(True), use_apt_pkg=False)))
+    return copy.deepcopy(cls(text))
+
+
+def spell(field, k):
+    return (field.lower(), field, field.upper(), field.title())[k % 4]
+
+
+def mixin_leg(r_py, s, k, diag):
+    """the string the formatter wrote for r, read back through the `relations` property of a paragraph
+    object that is NOT modified after construction: same statement, same verdicts.  k selects class,
+    field, input form and key spelling.  Afterwards (UNSPECIFIED, outcomes counted): `relations` after
+    the field was assigned / deleted, and a field added after construction."""
+    cls_name, field = MIXIN_FIELDS[k % len(MIXIN_FIELDS)]
+    form = MIXIN_FORMS[(k // len(MIXIN_FIELDS)) % len(MIXIN_FORMS)]
+    form2 = MIXIN_FORMS[(k // len(MIXIN_FIELDS) + 1 + k % 4) % len(MIXIN_FORMS)]
+    where = "%s(%s input).relations[%r] for %s: %r" % (cls_name, form, spell(field, k), field, s)
+    try:
+        with warnings.catch_warnings(record=True) as w:
+            warnings.simplefilter("always")
+            o1 = make_paragraph(cls_name, field, s, form)
+            o2 = make_paragraph(cls_name, field, s, form2)          # a second live object, another variant
+            got = o1.relations[spell(field, k)]
+            other = [f for c, f in MIXIN_FIELDS if c == cls_name and f != field]
+            absent = o1.relations[other[k % len(other)].lower()] if other else []
+            eq = got == r_py
+            shown = repr(got)
+            again = call_str(got, k)
+            edit_in_place(got)                                      # the caller edits what it got from o1
+            got2 = o2.relations[spell(field, k + 1)]
+            eq2 = got2 == r_py
+        w = emitted(w)
+    except Exception as e:       # noqa: BLE001 -- observation
+        return "%s raised %s: %s" % (where, type(e).__name__, e)
+    if not eq:
+        return "%s = %s, specification (Inverse): %r" % (where, shown, r_py)
+    if w:
+        return "%s emitted %r" % (where, "%s: %s" % (w[0].category.__name__, w[0].message))
+    if again != s:
+        return "PkgRelation.str of %s = %r" % (where, again)
+    if absent != []:
+        return "%s: a relation field that is absent gives %r, not []" % (where, absent)
+    if not eq2:
+        return "%s: a second paragraph object (%s input) gives %r after the caller edited the first one's result in place" % (
+            where, form2, got2)
+    # ---- unspecified zone: the paragraph is modified after construction
+    try:
+        with warnings.catch_warnings(record=True):
+            warnings.simplefilter("always")
+            o3 = make_paragraph(cls_name, field, s, form)
+            o3.relations
+            o3[field] = "zz-other"
+            stale = o3.relations[field.lower()] != call_parse("zz-other")
+            del o3[field]
+            stale_del = o3.relations[field.lower()] != []
+            o4 = make_paragraph(cls_name, field, None, form)
+            o4[field] = s
+            late = o4.relations[field.lower()] == r_py
+        for name, flag in (("relations_after_assignment_is_the_old_parse", stale),
+                           ("relations_after_deletion_is_the_old_parse", stale_del),
+                           ("relations_of_a_field_added_after_construction_is_parsed", late)):
+            diag["unspecified_%s_%s" % (name, flag)] = diag.get("unspecified_%s_%s" % (name, flag), 0) + 1
+    except Exception as e:       # noqa: BLE001 -- unspecified
+        diag["unspecified_modified_paragraph_raised_" + type(e).__name__] = diag.get(
+            "unspecified_modified_paragraph_raised_" + type(e).__name__, 0) + 1
+    return None
 
 
 def judge(r_py, o):
@@ -688,33 +832,19 @@ def type_drift(p):
     return None
 
 
-def deb822_path(ctx, s, r_py):
-    """diagnostic only: the same string read through the relation fields of Packages / Sources"""
-    try:
-        from debian.deb822 import Packages, Sources
-        with warnings.catch_warnings(record=True) as w:
-            warnings.simplefilter("always")
-            got1 = Packages({"Package": "x", "Depends": s, "Breaks": s}).relations
-            got2 = Sources("Package: x\nBuild-Depends: %s\n" % s).relations
-        if got1["depends"] != r_py or got1["Breaks"] != r_py or got1["suggests"] != []:
-            ctx.drift("Packages(...).relations differs from parse_relations for %r" % s)
-        if got2["build-depends"] != r_py:
-            ctx.drift("Sources(...).relations differs from parse_relations for %r" % s)
-        w = emitted(w)
-        if w:
-            ctx.drift("relations property warned for %r: %s" % (s, w[0].message))
-    except Exception as e:       # noqa: BLE001
-        ctx.drift("relations property raised %s: %s for %r" % (type(e).__name__, e, s))
-
-
-def check_case(ctx, rel_abs, codes, conc, diag, with_copy=True, history=True, order=None, variants=False):
+def check_case(ctx, rel_abs, codes, conc, diag, with_copy=True, history=True, order=None, variants=False, api=0,
+               mixin=None):
     """one concretization of one TLC case; returns (message or None, produced string, structure).
     order: key insertion order of the input dicts (see build); variants: also the container-type
     variants of the same structure"""
     from debian.deb822 import PkgRelation
     r_py = build(rel_abs, conc, order=order)
-    o = run_real(r_py)
+    o = run_real(r_py, api)
     msg = judge(r_py, o)
+    if msg is None and mixin is not None:
+        msg = mixin_leg(r_py, o["s"], mixin, diag if diag is not None else {})
+        if msg:
+            msg = "[relations property] " + msg
     if msg is None and order is not None:
         # an equal structure (keys inserted in the order of parse_relations) must format identically
         try:
@@ -942,7 +1072,11 @@ def _replay_chunk(lines):
             # the history follows every 2nd case; the edited copy of r makes its own round trip in every 4th of these
             msg, s, r_py = check_case(dr, rel_abs, v["t"], conc, diag, with_copy=(h >> 3) % 4 == 0,
                                       history=(h >> 7) % 2 == 0, order=order,
-                                      variants=(hs >> 5) % 8 == 0)
+                                      variants=(hs >> 5) % 8 == 0, api=(hs >> 2) % API_VARIANTS,
+                                      mixin=(hs >> 13) % (len(MIXIN_FIELDS) * len(MIXIN_FORMS) * 4)
+                                      if (hs >> 9) % 8 == 0 else None)
+            if (hs >> 9) % 8 == 0:
+                diag["relations_property_legs"] = diag.get("relations_property_legs", 0) + 1
             res["nrun"] += 1
             big = None
             if msg is None and (hs >> 6) % (512 if quick else 128) == 1:
@@ -958,10 +1092,12 @@ def _replay_chunk(lines):
             if msg:
                 res["nfail"] += 1
                 # the smallest failing structures are reported (canonical payload first)
-                key = (msg.startswith("[history]"), sum(len(x) for x in rel_abs), len(v["t"]), not canonical,
+                key = (msg.startswith("[history]") + msg.startswith("[relations"), sum(len(x) for x in rel_abs), len(v["t"]), not canonical,
                        len(s or ""), h)
                 res["failing"].append((key, {"kind": "case", "abstract": rel_abs, "tokens": v["t"], "conc": conc.to_json(),
-                                             "string": s, "order": order, "big": big}, msg))
+                                             "string": s, "order": order, "big": big, "api": (hs >> 2) % API_VARIANTS,
+                                             "mixin": (hs >> 13) % (len(MIXIN_FIELDS) * len(MIXIN_FORMS) * 4)
+                                             if (hs >> 9) % 8 == 0 else None}, msg))
                 res["failing"].sort(key=lambda x: x[0])
                 del res["failing"][20:]
                 break
@@ -969,9 +1105,6 @@ def _replay_chunk(lines):
             res["keys"].append(h)
         else:
             res["trivial"] += 1
-        if h % 97 == 0 and msg is None:
-            deb822_path(dr, s, r_py)
-            diag["deb822_path"] = diag.get("deb822_path", 0) + 1
         if h % 1021 < 2 and msg is None and 2 <= sum(len(x) for x in rel_abs) <= 3 and not plans[-1]:
             res["samples"][h] = "CASE %s: %s -> %r parses back to the structure, no warning, same string again; so do the same string after the caller edited the result in place and a relation sharing an alternative" % (
                 sk, json.dumps(v["r"], separators=(",", ":")), s)
@@ -1055,6 +1188,15 @@ def unspecified_zone(ctx):
         "empty relation": [],
         "empty conjunct": [[]],
         "plain tuples instead of namedtuples": atom(arch=[(True, "amd64")]),
+        # names, versions, architecture names and qualifiers are ASCII by Policy (5.6.1, 5.6.12, 11.1),
+        # profile names lower-case ASCII: other characters are outside the domain
+        "non-ASCII package name": atom(name="f\u00fc\u00fc"),
+        "non-ASCII version (Arabic-Indic digit)": atom(version=(">=", "\u0663.0")),
+        "profile name with sharp s": atom(restrictions=[[B(True, "stra\u00dfe")]]),
+        "profile name with dotted capital I": atom(restrictions=[[B(True, "\u0130x")]]),
+        "full-width architecture name": atom(arch=[PkgRelation.ArchRestriction(True, "\uff41md64")]),
+        "NBSP inside a name": atom(name="foo\u00a0bar"),
+        "BOM before the name": atom(name="\ufefffoo"),
     }
     res = {}
     for name, r_py in sorted(inputs.items()):
@@ -1064,7 +1206,32 @@ def unspecified_zone(ctx):
         else:
             res[name] = "%r -> %s%s" % (o["s"], "same structure" if o["p"] == r_py else "different structure",
                                         ", warning" if o["warn"] else "")
+    # pickling a parse result (the namedtuple classes live inside PkgRelation): not part of the statement
+    try:
+        import pickle
+        pickle.dumps(PkgRelation.parse_relations("foo [amd64]"))
+        res["pickle of a parse result with an arch list"] = "works"
+    except Exception as e:       # noqa: BLE001
+        res["pickle of a parse result with an arch list"] = "raised " + type(e).__name__
     ctx.extra["unspecified_outcomes"] = res
+    # `relations` of a paragraph MODIFIED after construction is unspecified (a lazily computed snapshot):
+    # the shapes seen on the pinned tree are recorded as observations for the maintainers
+    try:
+        from debian.deb822 import Packages
+        p1 = Packages({"Package": "x", "Depends": "a (>= 1) [amd64]"})
+        p1.relations
+        p1["Depends"] = "b <!nocheck>"
+        if p1.relations["depends"] != PkgRelation.parse_relations("b <!nocheck>"):
+            ctx.drift("observation (unspecified): p = Packages({'Package': 'x', 'Depends': 'a (>= 1) [amd64]'}); p.relations; "
+                      "p['Depends'] = 'b <!nocheck>'; p.relations['depends'] is still the parse of the old text "
+                      "(the relations dict is computed once; same after del p['Depends'])")
+        p2 = Packages({"Package": "x"})
+        p2["Depends"] = "c"
+        if p2.relations["depends"] != PkgRelation.parse_relations("c"):
+            ctx.drift("observation (unspecified): q = Packages({'Package': 'x'}); q['Depends'] = 'c'; q.relations['depends'] "
+                      "== [] (fields absent at construction are fixed to [] in _PkgRelationMixin.__init__)")
+    except Exception as e:       # noqa: BLE001
+        ctx.drift("observation (unspecified): relations of a modified paragraph raised %s: %s" % (type(e).__name__, e))
 
 
 # ------------------------------------------------------------------ (b) recorded executions
@@ -1120,7 +1287,8 @@ def record(r_py):
     alternative, str(r) again after formatting an edited copy), everything interned to ids"""
     conc = empty_conc()
     r_abs = abstract(r_py, conc)              # the harness' own structure: always well-formed
-    o = run_real(r_py)
+    api = len(r_abs) + sum(len(a) for a in r_abs)
+    o = run_real(r_py, api)
     exc = o["exc"].split(" ")[0] if o["exc"] else ""
     observed = {"parsed": repr(o["p"]), "warnings": o["warn"], "exception": o["exc"], "second_string": o["s2"]}
     p_abs = []
@@ -1137,7 +1305,7 @@ def record(r_py):
              "exc": exc,
              "t2": tokenize(o["s2"], conc) if o["s2"] is not None else [],
              "same": o["s2"] is not None and o["s2"] == o["s"],
-             "tc": [],
+             "tc": [], "pm": [], "mixok": False,
              "re": [], "rs": [], "ts": [], "ps": [], "warns": False, "sames": False,
              "fmtsame": False}
     if not exc:
@@ -1150,6 +1318,26 @@ def record(r_py):
         except Exception as e:       # noqa: BLE001 -- observation
             trace["exc"] = type(e).__name__
             observed["exception"] = "%s in PkgRelation.str of an equal structure: %s" % (type(e).__name__, e)
+
+        # the same string read through the relations property of an unmodified paragraph object
+        k = api * 7 + len(o["s"])
+        cls_name, field = MIXIN_FIELDS[k % len(MIXIN_FIELDS)]
+        form = MIXIN_FORMS[(k // len(MIXIN_FIELDS)) % len(MIXIN_FORMS)]
+        try:
+            with warnings.catch_warnings(record=True) as w:
+                warnings.simplefilter("always")
+                para = make_paragraph(cls_name, field, o["s"], form)
+                pm = para.relations[spell(field, k)]
+                others = [para.relations[f.lower()] for c, f in MIXIN_FIELDS if c == cls_name and f != field]
+                sm = call_str(pm, k)
+            trace["pm"] = abstract(pm, conc)
+            trace["mixok"] = not emitted(w) and sm == o["s"] and all(x == [] for x in others)
+            observed["relations_property"] = {"object": "%s(%s input).relations[%r]" % (cls_name, form, spell(field, k)),
+                                              "parsed": repr(pm), "warnings": [str(x.message) for x in emitted(w)],
+                                              "str_of_it": sm, "absent_fields": repr([x for x in others if x != []])}
+        except Exception as e:       # noqa: BLE001 -- observation
+            trace["exc"] = type(e).__name__
+            observed["exception"] = "%s in %s(%s input).relations[%r]: %s" % (type(e).__name__, cls_name, form, field, e)
 
         def snap(x):
             try:
@@ -1272,6 +1460,14 @@ def control_traces(traces):
     if t:                                           # the second string differs
         del t["t2"][1]
         out.append(t)
+    t = first(lambda t: len(t["pm"]) >= 2)
+    if t:                                           # the relations property lost a conjunct
+        t["pm"] = t["pm"][:-1]
+        out.append(t)
+    t = first(lambda t: True)
+    if t:                                           # the relations property warned / formats differently
+        t["mixok"] = False
+        out.append(t)
     t = first(lambda t: len(t["tc"]) >= 3)
     if t:                                           # an equal structure (other key order) formatted differently
         t["tc"][1], t["tc"][2] = t["tc"][2], t["tc"][1] + 1
@@ -1319,7 +1515,7 @@ def control_traces(traces):
 STEP = {0: "the string (diagnostic step)", 1: "Parse does not explain what parse_relations returned",
         2: "Inverse / NoWarning", 3: "Stable",
         4: "history: the same string parsed again after the caller edited the first result in place",
-        5: "history: a relation sharing an alternative / str(r) after formatting an edited copy"}
+        5: "history: a relation sharing an alternative / str(r) after formatting an edited copy / the relations property of a paragraph object"}
 
 
 BATCH = 4000     # traces per TLC invocation (JsonDeserialize holds the whole file in memory)
@@ -1329,7 +1525,7 @@ def validate(ctx, traces, with_controls=True, workers=2):
     controls = control_traces(traces) if with_controls else []
     if with_controls:
         good = sum(1 for t in traces if t["kind"] == "rt" and not t["exc"] and not t["warn"] and t["same"])
-        if len(controls) < 10 and good >= 50:
+        if len(controls) < 12 and good >= 50:
             raise core.MachineryError("only %d control traces could be built" % len(controls))
         if not controls:
             # the code under test fails every recorded round trip (they are all reported below): there is
@@ -1358,13 +1554,19 @@ def explain(meta, at):
     o = meta["observed"]
     if o["exception"]:
         return "str(r) = %r; raised %s" % (meta["string"], o["exception"])
+    if at >= 5 and o.get("relations_property"):
+        m = o["relations_property"]
+        extra = "; %s returned %s%s, str of it %r, absent fields %s" % (
+            m["object"], m["parsed"], ("; warnings %r" % m["warnings"]) if m["warnings"] else "", m["str_of_it"], m["absent_fields"])
+    else:
+        extra = ""
     if at >= 4 and o.get("history"):
         hh = o["history"]
         return "[%s] str(r) = %r; first parse_relations returned %s; after in-place edits of the returned structures the later calls returned %s%s; sharing relation %r parsed as %s%s; str(r) unchanged after formatting an edited copy: %s" % (
             STEP.get(at, "?"), meta["string"], o["parsed"], " then ".join(hh["later_parses_after_in_place_edits"]),
             ("; warnings %r" % hh["warnings"]) if hh["warnings"] else "", hh["sharing_relation_string"],
             hh["sharing_relation_parse"], ("; warnings %r" % hh["sharing_relation_warnings"]) if hh["sharing_relation_warnings"] else "",
-            hh["str_r_unchanged_after_formatting_an_edited_copy"])
+            hh["str_r_unchanged_after_formatting_an_edited_copy"]) + extra
     return "[%s] str(r) = %r; parse_relations returned %s%s; second string %r; an equal structure with its dict keys in parse order formats as %r" % (
         STEP.get(at, "?"), meta["string"], o["parsed"], ("; warnings %r" % o["warnings"]) if o["warnings"] else "",
         o["second_string"], o.get("string_of_the_equal_structure_in_parse_key_order"))
@@ -1492,7 +1694,8 @@ def _run_parallel(ctx, quick, cfg, mc_dir, workers):
 def replay(ctx, case):
     conc = Conc({k: list(v) for k, v in case["conc"].items()})
     if case["kind"] == "case":
-        msg, _, r_py = check_case(ctx, case["abstract"], case["tokens"], conc, {}, order=case.get("order"), variants=True)
+        msg, _, r_py = check_case(ctx, case["abstract"], case["tokens"], conc, {}, order=case.get("order"), variants=True,
+                                  api=case.get("api", 0), mixin=case.get("mixin"))
         if msg is None and case.get("big"):
             r_big = big_variant(r_py, case["big"]["n"], case["big"]["how"])
             msg = judge(r_big, run_real(r_big))
